@@ -126,7 +126,9 @@ impl History {
             let proto = if s.obj < self.objs.len() { self.objs[s.obj].proto } else { 200 + (s.feat_var % 8) };
             out.push(Det {
                 b,
-                custom: Some(custom_base + k as i64),
+                // one detection in five is submitted without a custom object id (after others that
+                // had one): the record has to echo the absence as well
+                custom: if (s.t as u32 + 7 * k as u32 + s.feat_var as u32) % 5 == 0 { None } else { Some(custom_base + k as i64) },
                 feat: if self.cfg.kind.is_visual() && s.has_feat { Some(feature(proto, s.feat_var, self.feat_dim.max(1))) } else { None },
                 q: if self.cfg.kind.is_visual() { s.quality } else { None },
             });
@@ -214,7 +216,9 @@ fn raw_det() -> impl Strategy<Value = RawDet> {
     (
         0usize..6,
         proptest::bool::weighted(0.85),
-        (-0.06f32..0.06, -0.06f32..0.06, -0.04f32..0.04),
+        // mostly measurement noise; now and then a jump of up to two box sizes in any direction
+        // (pairs around the reach of the bounding circles, the chi-square gate and the IoU gate)
+        prop_oneof![14 => (-0.06f32..0.06, -0.06f32..0.06, -0.04f32..0.04), 1 => (-2.0f32..2.0, -2.0f32..2.0, -0.04f32..0.04), 1 => (-0.9f32..0.9, -0.9f32..0.9, -0.04f32..0.04)],
         prop_oneof![3 => Just(1.0f32), 2 => 0.3f32..1.0, 1 => 0.0f32..0.1],
         proptest::bool::weighted(0.85),
         0u8..16,
@@ -298,7 +302,9 @@ pub fn cfg(kind: Kind) -> impl Strategy<Value = Cfg> {
         0usize..=5,
         prop_oneof![2 => (0.05f32..0.9).prop_map(Pos::IoU), 1 => Just(Pos::IoU(0.3)), 2 => Just(Pos::Maha)],
         prop_oneof![2 => Just(0.05f32), 1 => 0.01f32..1.0],
-        prop_oneof![2 => Just((0.05f32, 0.00625f32)), 1 => (0.02f32..0.1, 0.003f32..0.02)],
+        // Kalman weights: the defaults, around them, and heavy position weights (the chi-square
+        // gate is then wider than the reach of the bounding circles, which decides alone)
+        prop_oneof![4 => Just((0.05f32, 0.00625f32)), 2 => (0.02f32..0.1, 0.003f32..0.02), 1 => (0.1f32..0.6, 0.003f32..0.05)],
         vis_cfg(),
         // spatio-temporal constraints: mostly none, sometimes a (possibly binding) table
         prop_oneof![4 => Just(None), 1 => proptest::collection::vec((0usize..6, prop_oneof![Just(0.1f32), Just(0.5), Just(2.0), 0.05f32..3.0]), 1..4).prop_map(Some)],
